@@ -104,8 +104,19 @@ def alloc_marker(e):
 class Taint:
     """key = (var id, field or None) -> (marker id, alloc line, var name)"""
 
-    def __init__(self, d=None):
+    def __init__(self, d=None, pt=None):
         self.d = dict(d or {})
+        self.pt = dict(pt or {})      # pointer variable id -> local object variable it points to (mpz_ptr __x = (X))
+
+    def _target(self, lhs_base):
+        """local object a member access goes to: the object itself, or the unique target of a local pointer"""
+        b = base_var(lhs_base)
+        if b is None:
+            return None
+        ct = b.get("ct", "")
+        if b.get("param") is None and not b.get("global") and ("[1]" in ct or "*" not in ct):
+            return b
+        return self.pt.get(b["id"])
 
     def marker_of_expr(self, e):
         """(marker, line) if e is definitely a pointer into a TMP block under this taint map"""
@@ -129,8 +140,8 @@ class Taint:
             return self.marker_of_expr(e["r"])
         if k == "unop" and e["op"] in ("post++", "post--", "pre++", "pre--"):
             return self.marker_of_expr(e["e"])
-        if k == "member" and e["base"].get("k") in ("var", "index", "unop"):
-            b = base_var(e)
+        if k == "member" and e["base"].get("k") in ("var", "index", "unop", "cast"):
+            b = self._target(e["base"])
             if b is not None:
                 t = self.d.get((b["id"], e["field"]))
                 return (t[0], t[1]) if t else None
@@ -145,17 +156,29 @@ class Taint:
         if lhs.get("k") == "var":
             key = (lhs["id"], None)
             name = lhs["name"]
+            # pointer to a local object?
+            r = rhs
+            while isinstance(r, dict) and r.get("k") == "cast":
+                r = r["e"]
+            tgt = None
+            if isinstance(r, dict) and r.get("k") == "var" and "[1]" in r.get("ct", "") and r.get("param") is None:
+                tgt = r
+            elif isinstance(r, dict) and r.get("k") == "unop" and r["op"] == "&" and r["e"].get("k") == "var" \
+                    and r["e"].get("param") is None and "*" not in r["e"].get("ct", ""):
+                tgt = r["e"]
+            elif isinstance(r, dict) and r.get("k") == "var" and r["id"] in self.pt:
+                tgt = self.pt[r["id"]]
+            if tgt is not None:
+                self.pt[lhs["id"]] = tgt
+            else:
+                self.pt.pop(lhs["id"], None)
         elif lhs.get("k") == "member":
-            b = base_var(lhs)
-            # only fields of LOCAL objects (x->_mp_d of a local mpz_t, ctx.tp); a field of a parameter
-            # object is an escape, handled separately
-            if b is not None and b.get("param") is None and not b.get("global") and lhs["base"].get("k") in ("var", "index") \
-                    and "*" not in b.get("ct", "").replace("[1]", ""):
+            # only fields of LOCAL objects (x->_mp_d of a local mpz_t, ctx.tp, or through a local pointer that
+            # names exactly one local object); a field of a parameter object is an escape, handled separately
+            b = self._target(lhs["base"]) if lhs["base"].get("k") in ("var", "index", "unop", "cast") else None
+            if b is not None:
                 key = (b["id"], lhs["field"])
                 name = b["name"] + "." + lhs["field"]
-            elif b is not None and b.get("param") is None and not b.get("global") and "[1]" in b.get("ct", ""):
-                key = (b["id"], lhs["field"])
-                name = b["name"] + "->" + lhs["field"]
         if key is None:
             return
         if m:
@@ -167,7 +190,9 @@ class Taint:
         """MAY join: union (first value wins on conflict)"""
         d = dict(other.d)
         d.update(self.d)
-        return Taint(d)
+        pt = dict(other.pt)
+        pt.update(self.pt)
+        return Taint(d, pt)
 
     def refine_eq(self, cond, truth):
         """taint after learning that `cond` evaluated to `truth`: var == <expression that is not a TMP pointer>
@@ -185,13 +210,13 @@ class Taint:
         for a, b in ((c["l"], c["r"]), (c["r"], c["l"])):
             if a.get("k") == "var" and (a["id"], None) in self.d and self.marker_of_expr(b) is None \
                     and b.get("k") != "int":
-                t = Taint(self.d)
+                t = Taint(self.d, self.pt)
                 del t.d[(a["id"], None)]
                 return t
         return self
 
     def __eq__(self, o):
-        return self.d == o.d
+        return self.d == o.d and self.pt == o.pt
 
 
 def may_tmp_expr(fn):
@@ -279,7 +304,7 @@ def analyse_function(path, fn, prop, res):
         bid = work.pop()
         b = blocks[bid]
         states = set(IN[bid])
-        must = Taint(MUST[bid].d)
+        must = Taint(MUST[bid].d, MUST[bid].pt)
         for el in b["elems"]:
             e = el["e"]
             my = elem_events(el)
@@ -420,7 +445,7 @@ def analyse_function(path, fn, prop, res):
                 IN[s] |= states
                 ch = True
             if s not in MUST:
-                MUST[s] = Taint(must_out.d)
+                MUST[s] = Taint(must_out.d, must_out.pt)
                 ch = True
             else:
                 mt = MUST[s].meet(must_out)
@@ -479,4 +504,14 @@ def run_modes(prop="C14", tier="quick"):
     """C14 view of R-TMP: only the violation kinds that make alloca / malloc-reentrant / debug builds behave differently"""
     r = run(prop=prop, tier=tier)
     r["findings"] = [f for f in r["findings"] if f.signature.startswith(MODE_KINDS)]
+    return r
+
+
+IO_UNITS = ("mpz/inp_raw.c", "mpz/out_raw.c", "mpz/inp_str.c", "mpz/out_str.c", "mpq/inp_str.c", "mpq/out_str.c",
+            "mpf/inp_str.c", "mpf/out_str.c", "mpz/export.c", "mpz/import.c", "printf/", "scanf/")
+
+
+def run_io(prop="C17", tier="quick"):
+    """C17 view of R-TMP: the failure exits of the I/O functions neither leak nor use freed scratch"""
+    r = run(prop=prop, tier=tier, only=lambda p: any(u in p for u in IO_UNITS))
     return r
